@@ -20,6 +20,7 @@ EXPLANATION = (
     "panic): every panic-capable site of Message::decode and RequestId::decode is an affine obligation entailed by its dominating facts; "
     "facts about the in-place payload cursor are dropped when the cursor may be advanced in between; one library axiom is used "
     "(Enr::size() of a decoded record is at most the length of the slice it was decoded from).")
+EXPLANATION += (' Added while testing: R5 (framing): every outer list header of Request::encode / Response::encode declares the length of the buffer appended right after it (or the sum of Encodable::length over exactly the items encoded after it).')
 NOT_DECIDED = ["round-trip equality and RLP canonicity (value level)", "the folding of IPv4-mapped IPv6 addresses being 'by design'"]
 TRUSTED = ["alloy_rlp decoders return errors rather than panic", "axiom: Enr::size() <= length of the slice the record was decoded from"]
 TECHNIQUE = "static analysis over type-checked MIR: sibling-table comparison, dominance, affine obligations with Fourier-Motzkin entailment"
